@@ -224,6 +224,8 @@ def read_pil_line(raw):
 
     elif line[0] == 'reaction' and Reaction is not None:
         reactants, products, rtype, rate, units, r = read_reaction(line)
+        if r is None: # an ignored reaction
+            return line
         if rtype == 'condensed':
             try:
                 reactants = [Macrostate(None, x) for x in reactants]
